@@ -1636,15 +1636,41 @@ class SymExec:
         # local pointer aliases of parameter sub-places:  _x = &mut (*p).f...
         alias = {}
         unknown = False
+        upvars = set()
+        if b.kind == "Closure":
+            # a closure body: the mutable borrows it captured count like `&mut` parameters (keyed ("up", k)); they are
+            # reached as (*_1).k (or _1.k when the environment is taken by value)
+            mutparams = set(mutparams) - {1}
+            for blk in b.blocks:
+                for s in blk["stmts"]:
+                    if s["k"] == "assign" and not s["pl"]["p"] and s["rv"]["k"] == "use" and s["rv"]["op"]["k"] in ("copy", "move"):
+                        pl_ = s["rv"]["op"]["pl"]
+                        pr_ = [q for q in pl_["p"] if q != "deref"]
+                        if pl_["l"] == 1 and len(pr_) == 1 and isinstance(pr_[0], dict) and "f" in pr_[0] and str(pr_[0].get("ty", "")).startswith("&mut"):
+                            alias[s["pl"]["l"]] = (("up", pr_[0]["f"]), "*")
+                            upvars.add(("up", pr_[0]["f"]))
 
         def base_of(pl):
             l = pl["l"]
             projs = pl["p"]
+            if b.kind == "Closure" and l == 1:
+                pr_ = [q for q in projs]
+                if pr_ and pr_[0] == "deref":
+                    pr_ = pr_[1:]
+                if len(pr_) >= 2 and isinstance(pr_[0], dict) and "f" in pr_[0] and str(pr_[0].get("ty", "")).startswith("&mut") and pr_[1] == "deref":
+                    flds = [q["n"] for q in pr_[2:] if isinstance(q, dict) and "f" in q]
+                    upvars.add(("up", pr_[0]["f"]))
+                    return ("up", pr_[0]["f"]), (flds[0] if flds else None)
             if l in mutparams and projs and projs[0] == "deref":
                 flds = [q["n"] for q in projs[1:] if isinstance(q, dict) and "f" in q]
                 return l, (flds[0] if flds else None)
             if l in alias and projs and projs[0] == "deref":
-                return alias[l]
+                a_ = alias[l]
+                if a_[1] in ("*", None):
+                    # a pointer to the whole struct, projected further: the field it is projected to
+                    flds = [q["n"] for q in projs[1:] if isinstance(q, dict) and "f" in q]
+                    return a_[0], (flds[0] if flds else a_[1])
+                return a_
             return None
         for blk in b.blocks:
             if blk["cleanup"]:
@@ -1656,6 +1682,26 @@ class SymExec:
                 if tgt is not None:
                     res.setdefault(tgt[0], set()).add(tgt[1])
                 rv = s["rv"]
+                if rv["k"] == "agg" and rv.get("ak") == "closure":
+                    # a closure that captures a mutable borrow of (part of) the struct: whoever receives the closure may
+                    # write through it; which fields is not followed -- anything
+                    cms_ = self.modset(rv["closure"]) if rv.get("closure") in self.facts.bodies else None
+                    for k_, op_ in enumerate(rv["ops"]):
+                        if op_["k"] in ("move", "copy") and not op_["pl"]["p"]:
+                            ul_ = op_["pl"]["l"]
+                            tgt_ = alias.get(ul_) if (ul_ in alias and b.locals[ul_]["ty"].startswith("&mut")) else ((ul_, "*") if ul_ in mutparams else None)
+                            if tgt_ is None:
+                                continue
+                            # what the closure body may write through this captured borrow (None = anything)
+                            wr_ = None if cms_ is None else cms_.get(("up", k_), set())
+                            if tgt_[1] not in ("*", None):
+                                if wr_ is None or wr_:
+                                    res.setdefault(tgt_[0], set()).add(tgt_[1])
+                            elif wr_ is None:
+                                res.setdefault(tgt_[0], set()).add(None)
+                            else:
+                                for fl_ in wr_:
+                                    res.setdefault(tgt_[0], set()).add(fl_)
                 if rv["k"] in ("ref", "rawptr") and rv["mut"]:
                     src = base_of(rv["pl"])
                     if src is not None and not s["pl"]["p"]:
@@ -1682,17 +1728,28 @@ class SymExec:
                         continue
                     if not b.locals[al]["ty"].startswith("&mut"):
                         continue
-                    if tgt[1] == "*":
+                    if tgt[1] == "*" or tgt[1] is None:
+                        # the parameter itself, or a reborrow of the whole struct (`&mut *self`), handed on
                         sub = self.modset(cn) if cn in self.facts.bodies else None
                         if sub is None or sub.get(ai + 1) is None and (ai + 1) in (sub or {}):
                             res.setdefault(tgt[0], set()).add(None)
                         else:
                             for fl in (sub.get(ai + 1) or set()):
                                 res.setdefault(tgt[0], set()).add(fl)
+                            cb_ = self.facts.bodies.get(cn)
+                            if cb_ is not None and "&mut" in cb_.locals[0]["ty"]:
+                                # the callee hands back a mutable reference into the struct: whatever is done through it
+                                # later stays inside the fields it may point into
+                                tf_ = self.touched_fields(cn, ai + 1)
+                                if tf_ is None:
+                                    res.setdefault(tgt[0], set()).add(None)
+                                else:
+                                    for fl in tf_:
+                                        res.setdefault(tgt[0], set()).add(fl)
                     else:
                         res.setdefault(tgt[0], set()).add(tgt[1])
         out = {}
-        for i in mutparams:
+        for i in list(mutparams) + sorted(upvars):
             flds = res.get(i, set())
             out[i] = None if None in flds else set(flds)
         self._modset[name] = out
